@@ -106,4 +106,14 @@ CHECKS.update({
                 text='15 templates x every ordered pair of three 4-column tables x 8 (quick) / 24 (thorough) column permutations: plan_gather must list every table and column the statement mentions (for statements that take the gather path) and the distributed run must bind and equal ctx.sql.',
                 note='The label "columns the statement mentions" comes from the generator; over-gathering is accepted.'),
 })
+CHECKS.update({
+    'C13': dict(category='exploration', engine=E2, design='3/C13',
+                technique='exhaustive enumeration of Parquet layouts x node counts x projections x filters, union-of-shards oracle',
+                text='Real Parquet tables of up to 12-13 uniquely numbered rows in every layout (1..3 files x row-group size 1/2/5/all), 1..6 (quick) / 1..8 (thorough) nodes so sub-row-group ranges occur, 7 projections x 8 filters through the exact shard contexts the coordinator builds; the multiset union of the shard answers must equal the whole-table answer.',
+                note='Queries go through ctx.sql on each shard context, i.e. through the same scan path (projection, pushed filter, pruning) a fragment uses.'),
+    'C14': dict(category='exploration', engine=E2, design='3/C14',
+                technique='exhaustive enumeration of single-attribute table-copy differences x shard counts x indices x digests on the real execute_fragment',
+                text='3 base tables x 8 worker copies (2 that must be split-identical, 6 differing in one split-relevant attribute) x shard counts x every shard index incl. out of range x {initiator, worker, zero} digests: a fragment runs iff the index is in range and the digest is the worker\'s own.',
+                note='Byte-size-only differences are produced with wider strings in real files rather than forged footers.'),
+})
 PENDING_REASON = 'check not built yet in this round (planned in DESIGN.md section 3); not claimed until it exists'
